@@ -43,3 +43,10 @@ cls("DatasetBase", path="U", _dataset_info="ref:DatasetInfo")
 cls("DatasetIteration", base="DatasetBase")
 cls("DatasetWriting", base="DatasetBase")
 cls("Dataset", base="DatasetIteration")
+
+# shard readers: value-like objects, behaviour fixed by class + these two fields
+cls("IterateShardBase", dataset_structure="ref:DatasetStructure", process_record="optfunc",
+    _methv=["dataset_structure", "process_record"])
+cls("IterateShardNP", base="IterateShardBase", _kind="npz")
+cls("IterateShardFlatBuffer", base="IterateShardBase", _kind="fb")
+cls("IterateShardTFRec", base="IterateShardBase", from_tfrecord="optfunc", num_parallel_calls="int", _kind="tfrec")
